@@ -977,8 +977,9 @@ package machine
 
 // SameRequest: a pending mutation which makes a new arg-less request for
 // [states] redundant: same kind, no arguments, exactly the same called states.
-//@ pred SameRequest(m *Machine, q *Mutation, mutType MutationType, states S, isCheck bool) := q.IsCheck == isCheck && q.Type == mutType && maplen(q.Args) == 0
-//@      && len(q.Called) == len(states) && (forall i int :: 0 <= i && i < len(states) ==> mem(q.Called, index(m.stateNames, states[i])))
+//@ opred SameRequestV(names S, qCheck bool, qType MutationType, qArgs A, qCalled []int, mutType MutationType, states S, isCheck bool) := qCheck == isCheck && qType == mutType && maplen(qArgs) == 0
+//@      && len(qCalled) == len(states) && (forall i int :: 0 <= i && i < len(states) ==> mem(qCalled, index(names, states[i])))
+//@ pred SameRequest(m *Machine, q *Mutation, mutType MutationType, states S, isCheck bool) := SameRequestV(m.stateNames, q.IsCheck, q.Type, q.Args, q.Called, mutType, states, isCheck)
 
 //@ func (m *Machine) IsQueued(mutType MutationType, states S, withoutArgsOnly bool, statesStrictEqual bool, minQueueTick uint64, isCheck bool, position Position) (found bool, idx uint16, qTick uint64)
 //@   props C04 C20
@@ -986,6 +987,7 @@ package machine
 //@   requires nn:    forall i int :: 0 <= i && i < len(m.queue) ==> m.queue[i] != nil
 //@   requires short: len(m.queue) <= 65535
 //@   ensures  strict_hit: found && position == PositionAny && withoutArgsOnly && statesStrictEqual ==> idx < len(m.queue) && SameRequest(m, m.queue[idx], mutType, states, isCheck) && qTick == m.queue[idx].QueueTick
+//@   ensures  live:  found ==> !m.disposing
 //@   ensures  miss:  !found && !m.disposing && position == PositionAny && minQueueTick == 0 ==> (forall i int :: 0 <= i && i < len(m.queue) ==> !SameRequest(m, m.queue[i], mutType, states, isCheck))
 //@   ensures  locks: unlocked(m.queueMx)
 //@   loop 1 invariant none: position == PositionAny && minQueueTick == 0 ==> (forall j int :: 0 <= j && j < idx1 ==> !SameRequest(m, m.queue[j], mutType, states, isCheck))
@@ -998,6 +1000,7 @@ package machine
 //@   requires short: len(m.queue) <= 65535
 //@   ensures  dup:   r ==> (exists i int :: 0 <= i && i < len(m.queue) && SameRequest(m, m.queue[i], mutationType, states, isCheck))
 //@   ensures  nodup: !r && !m.disposing ==> (forall i int :: 0 <= i && i < len(m.queue) ==> !SameRequest(m, m.queue[i], mutationType, states, isCheck))
+//@   ensures  live:  r ==> !m.disposing
 //@   ensures  locks: unlocked(m.queueMx)
 //@ func (e *Event) Transition() (r *Transition)
 //@   trusted getter of the source machine's current transition
@@ -1014,6 +1017,8 @@ package machine
 //@   ensures  queued: r != 0 ==> len(m.queue) == old(len(m.queue)) + 1 && (forall i int :: 0 <= i && i < old(len(m.queue)) ==> m.queue[i] == old(m.queue)[i])
 //@                      && fresh(m.queue[len(m.queue) - 1]) && m.queue[len(m.queue) - 1].QueueTick == r && m.queue[len(m.queue) - 1].Type == mutType && !m.queue[len(m.queue) - 1].IsCheck && !m.queue[len(m.queue) - 1].IsAuto
 //@   ensures  tick:   r != 0 ==> r == old(m.queueTick) + old(m.queueTicksPending) + 1 && m.queueTicksPending == old(m.queueTicksPending) + 1
+//@   ensures  dropped_only_dup: r == 0 && nodup(states) ==> old(exists i int :: 0 <= i && i < len(m.queue) && SameRequest(m, m.queue[i], mutType, states, false))
+//@   ensures  queued_ok: r != 0 && !m.disposing && nodup(states) && SchemaInv(m) ==> MutOK(m, m.queue[len(m.queue) - 1])
 //@   ensures  inv:    QueueInv(m)
 //@   ensures  locks:  unlocked(m.schemaMx) && unlocked(m.queueMx) && unlocked(m.tracersMx)
 //@   loop 1 invariant locks: unlocked(m.schemaMx)
